@@ -251,8 +251,11 @@ def all_paths(rec: Recorder, call: Callable[[], Any], table_factory: Callable[[]
             # of any thread (never feasible); skip it
             pass
         else:
-            out.append(Path(rec.steps_for(id(obj)), list(used), len(rec.events),
-                            "returns" if exc is None else f"raises {type(exc).__name__}"))
+            outcome = "returns" if exc is None else f"raises {type(exc).__name__}"
+            if exc is None and target is not None and result is not target:
+                # the finding thread walks away with an object of its own although the table held one
+                outcome = "returns-another-object"
+            out.append(Path(rec.steps_for(id(obj)), list(used), len(rec.events), outcome))
         if len(out) > limit:
             raise HarnessError("more initialisation paths than the limit")
         nxt = list(used)
@@ -343,6 +346,8 @@ def search(pa: List[Path], pb: List[Path], flags: List[str], attrs: List[str], o
                     if i == n - 1:
                         # the constructor call returns after this step: the object must be complete
                         nbad = z3.Or(nbad, z3.Not(z3.And(*[na[a] for a in attrs])) if attrs else z3.BoolVal(False))
+                        if pth.outcome == "returns-another-object":
+                            nbad = z3.BoolVal(True)
                     if st.acquire:
                         conds.append(z3.Or(lock[t] == 0, lock[t] == k + 1))
                     if st.inside:
@@ -388,7 +393,8 @@ def search(pa: List[Path], pb: List[Path], flags: List[str], attrs: List[str], o
                     sa = progs[0][paths[0]].steps
                     first_switch = sa[ia].raw if ia < len(sa) else progs[0][paths[0]].events
                 trace.append(("AB"[k], st.code.co_name, st.line, [o[0] + (":" + str(o[2]) if len(o) > 2 else "") for o in st.ops], st.src))
-        out.update(paths=paths, trace=trace, hold_a_before_event=first_switch)
+        out.update(paths=paths, trace=trace, hold_a_before_event=first_switch,
+                   other_object=progs[1][paths[1]].outcome == "returns-another-object")
     return out
 
 
@@ -411,7 +417,7 @@ def analyse(cls: Any, call: Callable[[], Any], files: Sequence[str]) -> Dict[str
     rec.target = None
     proto, exc = rec.run(call, dict(real))
     if exc is not None or type(proto) is not cls:
-        raise HarnessError(f"the undisturbed construction failed: {exc!r}")
+        return {"result": "not-applicable", "why": f"the undisturbed construction under the recorder failed: {exc!r}"}
     finished_table = rec.last_table
     writes: Dict[str, List[Any]] = {}
     for _, op in rec.ops:
@@ -421,7 +427,10 @@ def analyse(cls: Any, call: Callable[[], Any], files: Sequence[str]) -> Dict[str
     attrs = [n for n in writes if n not in flags]
     rec.flags = flags
     if not any(op[0] == "publish" and op[1] == id(proto) for _, op in rec.ops):
-        raise HarnessError("the constructor never puts the new object into the intern table")
+        # e.g. the table is replaced by a copy (`cls._known = {**cls._known, key: self}`): publication
+        # is then a rebinding this recorder does not see; E4b models that form
+        return {"result": "not-applicable", "why": "the new object does not enter the table through an operation on "
+                                                   "the table object (the table is rebound or written elsewhere)"}
     published_at = min(at_ for at_, op in rec.ops if op[0] == "publish" and op[1] == id(proto))
     late = [n for at_, op in rec.ops if op[0] == "w" and op[1] == id(proto) and at_ > published_at for n in [op[2]]]
     if not late:
@@ -432,7 +441,7 @@ def analyse(cls: Any, call: Callable[[], Any], files: Sequence[str]) -> Dict[str
     key_table = dict(finished_table)
     pb = all_paths(rec, call, lambda: (dict(key_table), proto))
     if not pa or not pb:
-        raise HarnessError("no initialisation path extracted")
+        return {"result": "not-applicable", "why": "no initialisation path could be extracted"}
     annotate(pa + pb, cls)
     res = search(pa, pb, flags, attrs, one_preemption=True)
     if res["result"] == "unsat":
